@@ -146,7 +146,7 @@ def traced(cls, ctl):
 
 
 # ------------------------------------------------------------------ one call
-def call_assemble(vcls, mclss, vrec, mrecs, id_, name, fault=None, prequery=False, wrappers=None):
+def call_assemble(vcls, mclss, vrec, mrecs, id_, name, fault=None, prequery=False, wrappers=None, dup_wrapper=None):
     """performs vector.assemble(*modules) on the given record objects; returns the out dict"""
     from moclo import errors
     from moclo.record import CircularRecord
@@ -164,6 +164,8 @@ def call_assemble(vcls, mclss, vrec, mrecs, id_, name, fault=None, prequery=Fals
             vec = vcls(vrec)
             mods = [c(r) for c, r in zip(mclss, mrecs)]
         KEEP.extend([vec] + mods)
+        if dup_wrapper is not None and dup_wrapper < len(mods):
+            mods = mods + [mods[dup_wrapper]]       # the very same wrapper object supplied twice
         if prequery:          # the user inspects the very wrappers that are assembled afterwards
             for w in [vec] + mods:
                 try:
@@ -282,7 +284,10 @@ def exec_assembly(r):
                 rec.features.append(_SF(_FL(a, b, strand=st), type="misc_feature", qualifiers={"label": ["added-later"]}))
     before = [snapshot(x) for x in inputs]
     proj_in = [rec_proj(x) for x in inputs]
-    out = call_assemble(vcls, mclss, vrec, mrecs, r.get("id"), r.get("name"), r.get("fault"), prequery=bool(r.get("prequery")), wrappers=wr)
+    out = call_assemble(vcls, mclss, vrec, mrecs, r.get("id"), r.get("name"), r.get("fault"), prequery=bool(r.get("prequery")), wrappers=wr,
+                        dup_wrapper=r.get("dup_wrapper"))
+    if r.get("dup_wrapper") is not None and r["dup_wrapper"] < len(mrecs):
+        proj_in = proj_in + [proj_in[1 + r["dup_wrapper"]]]      # the event shows the module twice, as it was supplied
     prod = out.pop("_product", None)
     after = [snapshot(x) for x in inputs]
     ev = {"ev": "Assemble", "enz": {"site": dna.enc(s), "off": o, "ovh": k},
